@@ -33,6 +33,8 @@ abbrev DRow := List (String × DV)
 inductive DErr where
   | runtime
   | syntax
+  /-- `Error::Other` with any other text (ExpandIter: "Variable … is not a node") -/
+  | other
   | limit (k : LimitKind)
   deriving DecidableEq, Repr
 
@@ -349,6 +351,19 @@ def dsemX (X : (String → Nat → Option DErr) → ExFn) : Sem DE DRow DV DErr 
     | some e => rows.findSome? (fun r => parkV (X coll) env r e)
     | none => none)
   nonBool := .runtime
+  lookup _ _ := none
+  call _ _ _ _ := .error .runtime
+  contains row outer := outer.all (fun kv => rowGet row kv.1 == some kv.2)
+  null := dnull
+
+/-- what a line of the correspondence stream says about the graph: the index entries and the
+    procedure results (materialised by the harness from the engine's snapshot) -/
+structure GraphFns where
+  lookup : String → DV → Option (List DRow)
+  call : String → DRow → DRow → List DV → Except DErr (List DRow)
+
+def dsemG (G : GraphFns) (X : (String → Nat → Option DErr) → ExFn) : Sem DE DRow DV DErr (List DV) DAgg :=
+  { dsemX X with lookup := G.lookup, call := G.call }
 
 /-- without EXISTS-in-expression subqueries -/
 def dsem : Sem DE DRow DV DErr (List DV) DAgg := dsemX (fun _ => noEx)
